@@ -20,18 +20,45 @@ type sim struct {
 	cmds    []cspec
 	enq     []bool
 	done    []bool
-	conc    []bool         // enqueued concurrently: position in its queue unknown
-	queues  map[int][]int  // FIFO of enqueued, not yet completed, sequentially enqueued commands
+	conc    []bool        // enqueued concurrently: position in its queue unknown
+	queues  map[int][]int // FIFO of enqueued, not yet completed, sequentially enqueued commands
 	waited  map[[2]int]bool
 	replied map[[2]int]bool
 	concAny bool
+	// late[c]: the script starts c's callback listener only at its (L c); listening[c]: started
+	late      []bool
+	listening []bool
+	held      []bool // a (B c) has found the consumer blocked handing c's answer over
 	// classification counters (tags / non-triviality)
 	n map[string]int
 }
 
-func newSim(cmds []cspec) *sim {
-	return &sim{cmds: cmds, enq: make([]bool, len(cmds)), done: make([]bool, len(cmds)), conc: make([]bool, len(cmds)),
-		queues: map[int][]int{}, waited: map[[2]int]bool{}, replied: map[[2]int]bool{}, n: map[string]int{}}
+// newSim: late = the commands whose listener the script starts itself (nil: none).
+func newSim(cmds []cspec, late []bool) *sim {
+	s := &sim{cmds: cmds, enq: make([]bool, len(cmds)), done: make([]bool, len(cmds)), conc: make([]bool, len(cmds)),
+		queues: map[int][]int{}, waited: map[[2]int]bool{}, replied: map[[2]int]bool{}, n: map[string]int{},
+		late: make([]bool, len(cmds)), listening: make([]bool, len(cmds)), held: make([]bool, len(cmds))}
+	for c := range cmds {
+		if c < len(late) && late[c] {
+			s.late[c] = true
+		} else {
+			s.listening[c] = true
+		}
+	}
+	return s
+}
+
+// lateOf: the commands that have an (L c) in the script.
+func lateOf(n int, script []*sx.Node) []bool {
+	late := make([]bool, n)
+	for _, a := range script {
+		if a.At(0).Str() == "L" && a.Len() == 2 {
+			if c := a.At(1).Int(); c >= 0 && c < n {
+				late[c] = true
+			}
+		}
+	}
+	return late
 }
 
 func (s *sim) tspec(c, t int) *tspec {
@@ -62,9 +89,13 @@ func (s *sim) active(c int) bool {
 	return s.enq[c] && !s.done[c] && !s.conc[c] && len(q) > 0 && q[0] == c
 }
 
-// blocked: c is active, cannot complete before the driver replies, so nothing
-// queued behind it can start.
+// blocked: c is active and cannot complete before the driver replies — or its
+// answer cannot be handed over because nobody listens yet (the consumer waits in the
+// send on the callback channel) —, so nothing queued behind it can start.
 func (s *sim) blocked(c int) bool {
+	if s.active(c) && !s.listening[c] {
+		return true
+	}
 	if !s.active(c) || !s.long(c) {
 		return false
 	}
@@ -109,7 +140,7 @@ func (s *sim) apply(a *sx.Node) error {
 		}
 		seen := map[int]bool{}
 		for _, n := range a.List[1:] {
-			if !s.selfDriving(n.Int()) || seen[n.Int()] {
+			if !s.selfDriving(n.Int()) || seen[n.Int()] || s.late[n.Int()] {
 				return fmt.Errorf("concurrent E of a driver-dependent command")
 			}
 			seen[n.Int()] = true
@@ -179,7 +210,7 @@ func (s *sim) apply(a *sx.Node) error {
 		return nil
 	case "D":
 		c := a.At(1).Int()
-		if !valid(c) || !s.enq[c] || s.done[c] {
+		if !valid(c) || !s.enq[c] || s.done[c] || !s.listening[c] {
 			return fmt.Errorf("bad D")
 		}
 		if !s.conc[c] {
@@ -189,6 +220,45 @@ func (s *sim) apply(a *sx.Node) error {
 			s.queues[s.cmds[c].q] = s.queues[s.cmds[c].q][1:]
 		}
 		s.done[c] = true
+		return nil
+	case "L":
+		c := a.At(1).Int()
+		if a.Len() != 2 || !valid(c) || !s.late[c] || s.listening[c] {
+			return fmt.Errorf("bad L")
+		}
+		s.listening[c] = true
+		s.n["late-listener"]++
+		switch {
+		case !s.enq[c]:
+			s.n["listen-before-enqueue"]++
+		case s.active(c) && !s.held[c] && !s.completable(c):
+			s.n["listen-during-commit"]++
+		case !s.active(c):
+			s.n["listen-while-queued"]++
+			for _, x := range s.queues[s.cmds[c].q] {
+				if x == c {
+					break
+				}
+				if !s.listening[x] {
+					s.n["listen-out-of-order"]++
+					break
+				}
+			}
+		}
+		return nil
+	case "B":
+		c := a.At(1).Int()
+		if a.Len() != 2 || !valid(c) || !s.late[c] || s.listening[c] || !s.active(c) || !s.completable(c) {
+			return fmt.Errorf("B on a command whose hand-over cannot be pending")
+		}
+		if s.held[c] {
+			s.n["held-again"]++
+		}
+		s.held[c] = true
+		s.n["held-probe"]++
+		if len(s.queues[s.cmds[c].q]) > 1 {
+			s.n["held-with-commands-behind"]++
+		}
 		return nil
 	}
 	return fmt.Errorf("bad action")
@@ -205,7 +275,7 @@ func (s *sim) allDone() bool {
 
 // feasible replays a whole script; all commands must be enqueued and awaited.
 func feasible(cmds []cspec, script []*sx.Node) (*sim, bool) {
-	s := newSim(cmds)
+	s := newSim(cmds, lateOf(len(cmds), script))
 	for _, a := range script {
 		if s.apply(a) != nil {
 			return s, false
@@ -284,7 +354,7 @@ func genCase(r *rng.R, maxCmds, maxTargets int) fw.Case {
 		}
 		cmds = append(cmds, cs)
 	}
-	s := newSim(cmds)
+	s := newSim(cmds, nil)
 	var script []*sx.Node
 	try := func(a *sx.Node) bool {
 		if s.apply(a) == nil {
@@ -399,6 +469,181 @@ func genCase(r *rng.R, maxCmds, maxTargets int) fw.Case {
 	return fw.Case{Input: input, Tags: tagsOf(cmds, s)}
 }
 
+// genLateCase: the class "the caller is not at its receive when the answer is ready".
+// 1..4 fast commands (targets that fail at send, reply inside the send call, time out after
+// 25..60 ms, or are answered by the script), most of them late listeners: enqueued without
+// anybody receiving on the callback channel; the script probes that the consumer goroutine
+// then WAITS in the hand-over (B), lets replies / foreign ids / further Enqueues happen
+// meanwhile, starts the listeners in any order (also for commands still queued behind, also
+// before the Enqueue or in the middle of the commit) and collects every answer. "Pipelined":
+// all commands are enqueued first, the answers collected afterwards.
+func genLateCase(r *rng.R) fw.Case {
+	tag := 0
+	newTag := func() int { tag++; return tag }
+	nc := r.Range(1, 4)
+	twoQ := nc >= 2 && r.P(1, 5)
+	pool := r.Range(2, 6)
+	var cmds []cspec
+	late := make([]bool, nc)
+	anyLate := false
+	for c := 0; c < nc; c++ {
+		cs := cspec{}
+		if twoQ {
+			cs.q = r.N(2)
+		}
+		if r.P(1, 2) {
+			cs.tmo = msDur(r.Range(25, 60))
+		}
+		nt := r.Range(1, 4)
+		if r.P(1, 10) {
+			nt = 0
+		}
+		if nt > pool {
+			nt = pool
+		}
+		perm := make([]int, pool)
+		for i := range perm {
+			perm[i] = i
+		}
+		rng.Shuffle(r, perm)
+		withArgs := r.P(1, 3)
+		for _, t := range perm[:nt] {
+			ts := tspec{t: t, mode: "ok"}
+			if withArgs && r.P(1, 2) {
+				ts.arg = r.Range(1, 99)
+			}
+			switch x := r.N(10); {
+			case x < 4:
+				ts.mode = "fail"
+			case x < 7:
+				ts.mode, ts.tag, ts.err = "auto", newTag(), r.P(1, 4)
+			}
+			cs.targets = append(cs.targets, ts)
+		}
+		cmds = append(cmds, cs)
+		late[c] = r.P(3, 4)
+		anyLate = anyLate || late[c]
+	}
+	if !anyLate {
+		late[r.N(nc)] = true
+	}
+	s := newSim(cmds, late)
+	var script []*sx.Node
+	try := func(a *sx.Node) bool {
+		if s.apply(a) == nil {
+			script = append(script, a)
+			return true
+		}
+		return false
+	}
+	reply := func(c, t int) {
+		if !s.waited[[2]int{c, t}] {
+			try(sx.L(sx.A("W"), sx.I(c), sx.I(t)))
+		}
+		if s.held[c] {
+			s.n["reply-while-held"]++
+		}
+		try(sx.L(sx.A("R"), sx.I(c), sx.I(t), sx.I(newTag()), sx.B(r.P(1, 4))))
+	}
+	head := func() int { // a running command, or -1
+		var hs []int
+		for c := 0; c < nc; c++ {
+			if s.active(c) {
+				hs = append(hs, c)
+			}
+		}
+		if len(hs) == 0 {
+			return -1
+		}
+		return rng.Pick(r, hs)
+	}
+	next := 0
+	if nc >= 2 && r.P(1, 2) {
+		for next < nc {
+			try(sx.L(sx.A("E"), sx.I(next)))
+			next++
+		}
+		s.n["pipelined-enqueue"]++
+	}
+	for steps := 0; steps < 40 && !s.allDone(); steps++ {
+		switch x := r.N(100); {
+		case x < 14 && next < nc:
+			if try(sx.L(sx.A("E"), sx.I(next))) {
+				next++
+			}
+		case x < 34: // bring the running command to the end of its commit, then find its answer held
+			if c := head(); c >= 0 {
+				for _, ts := range cmds[c].targets {
+					if ts.mode == "ok" && !s.replied[[2]int{c, ts.t}] && (s.long(c) || r.P(1, 2)) {
+						reply(c, ts.t)
+					}
+				}
+				try(sx.L(sx.A("B"), sx.I(c)))
+			}
+		case x < 50: // start listening to any late command, wherever it is
+			try(sx.L(sx.A("L"), sx.I(r.N(nc))))
+		case x < 62:
+			if c := head(); c >= 0 {
+				try(sx.L(sx.A("D"), sx.I(c)))
+			}
+		case x < 74: // a reply for any command whatever its state (held, queued behind, done, not enqueued)
+			c := r.N(nc)
+			t := r.N(pool + 1)
+			if len(cmds[c].targets) > 0 && r.P(4, 5) {
+				t = rng.Pick(r, cmds[c].targets).t
+			}
+			if s.active(c) && s.tspec(c, t) != nil {
+				reply(c, t)
+			} else {
+				try(sx.L(sx.A("R"), sx.I(c), sx.I(t), sx.I(newTag()), sx.B(r.P(1, 4))))
+			}
+		case x < 80:
+			try(sx.L(sx.A("F"), sx.I(r.N(3)), sx.I(r.N(pool)), sx.I(newTag()), sx.B(r.P(1, 4))))
+		case x < 90: // is it still held?
+			if c := head(); c >= 0 && s.held[c] {
+				try(sx.L(sx.A("B"), sx.I(c)))
+			}
+		default:
+			if c := head(); c >= 0 && len(cmds[c].targets) > 0 {
+				try(sx.L(sx.A("W"), sx.I(c), sx.I(rng.Pick(r, cmds[c].targets).t)))
+			}
+		}
+	}
+	for next < nc {
+		try(sx.L(sx.A("E"), sx.I(next)))
+		next++
+	}
+	for progress := true; progress; {
+		progress = false
+		for c := 0; c < nc; c++ {
+			if !s.active(c) {
+				continue
+			}
+			for _, ts := range cmds[c].targets {
+				if ts.mode == "ok" && !s.replied[[2]int{c, ts.t}] && (s.long(c) || r.P(1, 2)) {
+					reply(c, ts.t)
+				}
+			}
+			if !s.listening[c] {
+				if r.P(2, 3) {
+					try(sx.L(sx.A("B"), sx.I(c)))
+				}
+				try(sx.L(sx.A("L"), sx.I(c)))
+			}
+			if try(sx.L(sx.A("D"), sx.I(c))) {
+				progress = true
+			}
+		}
+	}
+	// a late-listener command needs its (L c) in the script to BE one: cannot be missing here,
+	// every command was driven home through L and D
+	sc := sx.L()
+	sc.List = script
+	sc.IsList = true
+	input := sx.L(cmdsNode(cmds), sc).String()
+	return fw.Case{Input: input, Tags: tagsOf(cmds, s)}
+}
+
 func tagsOf(cmds []cspec, s *sim) []string {
 	tags := []string{fmt.Sprintf("cmds=%d", len(cmds))}
 	qs := map[int]bool{}
@@ -456,7 +701,9 @@ func tagsOf(cmds []cspec, s *sim) []string {
 		tags = append(tags, "per-target-arguments")
 	}
 	for _, k := range []string{"own-reply", "duplicate", "late", "early", "early-while-queued", "foreign-id", "wrong-sender",
-		"error-reply", "reply-after-send-failure", "reply-racing-timeout", "concurrent-enqueue"} {
+		"error-reply", "reply-after-send-failure", "reply-racing-timeout", "concurrent-enqueue",
+		"late-listener", "listen-before-enqueue", "listen-during-commit", "listen-while-queued", "listen-out-of-order",
+		"held-probe", "held-again", "held-with-commands-behind", "pipelined-enqueue", "reply-while-held"} {
 		if s.n[k] > 0 {
 			tags = append(tags, k)
 		}
@@ -475,6 +722,11 @@ func generate(tier string, r *rng.R) []fw.Case {
 		if i%5 == 0 {
 			maxCmds, maxT = 2, 3 // small cases: shrink-friendly, dense in corner cases
 		}
+		if i%7 == 3 {
+			// the caller reaches its receive on the callback channel LATE (or pipelines)
+			cs = append(cs, genLateCase(r.Fork()))
+			continue
+		}
 		cs = append(cs, genCase(r.Fork(), maxCmds, maxT))
 	}
 	return cs
@@ -486,6 +738,10 @@ func generate(tier string, r *rng.R) []fw.Case {
 func search(r *rng.R) []fw.Case {
 	cs := []fw.Case{}
 	for i := 0; i < 2500; i++ {
+		if i%4 == 1 {
+			cs = append(cs, genLateCase(r.Fork()))
+			continue
+		}
 		cs = append(cs, genCase(r.Fork(), 3, 4))
 	}
 	return cs
@@ -520,7 +776,7 @@ func nontrivial(input, obs string) bool {
 	}
 	stray := s.n["duplicate"] + s.n["late"] + s.n["early"] + s.n["early-while-queued"] + s.n["foreign-id"] +
 		s.n["wrong-sender"] + s.n["reply-after-send-failure"]
-	return (len(cmds) >= 2 || maxT >= 2) && (stray > 0 || fail > 0 || silent > 0)
+	return (len(cmds) >= 2 || maxT >= 2) && (stray > 0 || fail > 0 || silent > 0 || s.n["held-probe"] > 0 || s.n["listen-while-queued"] > 0)
 }
 
 // shrink: drop one script action, or the last command with every action that
